@@ -21,6 +21,7 @@ from pyvaporation.process.process import ProcessModel
 
 from ..symx import lift, SReal, real, rv
 from .. import build, proc, realrun
+from ..symx import Unsupported as symx_Unsupported
 from ..core import Patches, close
 from ..tunnel import tunnel
 from .C14 import factor
@@ -147,12 +148,17 @@ def concrete(inp):
                     if (l.permeate_temperature is None) != (Tp is None) or (l.permeate_pressure is None) != (Pp is None):
                         bad.append("curve permeate condition: saved (%r, %r), loaded (%r, %r)" % (Tp, Pp, l.permeate_temperature, l.permeate_pressure))
         if what in ("function", "all"):
-            f = PervaporationFunction(n=2, m=1, alpha=0.31, a=[0.2, -0.11], b=[1000.5, 50.25])
-            f.save(Path(root) / "f.pv")
-            f.safe_save(Path(root) / "f.json")
-            for g in (PervaporationFunction.load(Path(root) / "f.pv"), PervaporationFunction.safe_load(Path(root) / "f.json")):
-                if not (g.n == 2 and g.m == 1 and close(g.alpha, 0.31) and all(close(x, y) for x, y in zip(list(g.a) + list(g.b), [0.2, -0.11, 1000.5, 50.25]))):
-                    bad.append("PervaporationFunction round trip gives %r" % (g,))
+            # values across the whole stated span (1e-9 .. 1e3), as plain floats and as numpy scalars
+            for alpha, a, b in ((0.31, [0.2, -0.11], [1000.5, 50.25]), (7.6543219876543e-09, [-2.718281828459e-08, 3.3e-07], [1234.56789012345, 1.0e-9]),
+                                (numpy.float64(4.4e-7), list(numpy.array([1.5e-9, -0.25])), list(numpy.array([999.999, 2.0])))):
+                f = PervaporationFunction(n=2, m=1, alpha=alpha, a=a, b=b)
+                f.save(Path(root) / "f.pv")
+                f.safe_save(Path(root) / "f.json")
+                want = [float(alpha)] + [float(v) for v in a] + [float(v) for v in b]
+                for how, g in (("binary", PervaporationFunction.load(Path(root) / "f.pv")), ("json", PervaporationFunction.safe_load(Path(root) / "f.json"))):
+                    got = [float(g.alpha)] + [float(v) for v in g.a] + [float(v) for v in g.b]
+                    if not (g.n == 2 and g.m == 1 and len(got) == len(want) and all(close(x, y, 1e-9, 0) for x, y in zip(got, want))):
+                        bad.append("PervaporationFunction %s round trip of %r gives %r" % (how, want, got))
             for tp, pp in ((None, 1.25), (None, 0.0), (293.15, None), (None, None), (0.0, None)):  # incl. an explicit vacuum of 0 kPa
                 c = Conditions(membrane_area=0.4, initial_feed_temperature=333.1, initial_feed_amount=2.5, initial_feed_composition=pv.Composition(0.33, "molar"),
                                permeate_temperature=tp, permeate_pressure=pp)
@@ -425,8 +431,12 @@ def small_objects(job):
             for n, m in ((0, 0), (1, 1), (2, 1)):
                 arr = [real("k%d" % i) for i in range(2 + n + m)]
                 f = PervaporationFunction.from_array(numpy.array(arr, dtype=object), n, m)
-                f.save(Path(root) / "f.pv")
-                f.safe_save(Path(root) / "f.json")
+                try:
+                    f.save(Path(root) / "f.pv")
+                    f.safe_save(Path(root) / "f.json")
+                except symx_Unsupported as e:
+                    job.record("C17/function/n%d_m%d/*" % (n, m), "inconclusive", "the code is out of reach of the lifted execution here (%s)" % e, nontrivial=False)
+                    continue
                 for how, g in (("binary", PervaporationFunction.load(Path(root) / "f.pv")), ("json", PervaporationFunction.safe_load(Path(root) / "f.json"))):
                     tag = "C17/function/%s/n%d_m%d" % (how, n, m)
                     _eq_field(job, tag, "orders", [], [str(n), str(m)], [str(g.n), str(g.m)], inputs)
